@@ -63,6 +63,8 @@ def write_replay(pid, name, payload):
 
 
 def run_pyvc(pid, prop, tier):
+    # the line-budget invariants of best_layout (layout_zone.py) serve C05 only and triple the work for that function
+    os.environ['PVF_LAYOUT_ZONE'] = '1' if pid == 'C05' else '0'
     from pvf.pyvc.run import verify_family
     out = dict(obligations=[], functions=[], outside=[], crashes=[], trusted=[], assumptions=[], lemmas=[],
                solver_time_s=0.0, by_backend={}, covers=[])
